@@ -126,7 +126,12 @@ pub fn corpus(format: usize, rng: &mut Rng, m128: bool) -> Vec<u8> {
             };
             write_szx(&s, &opt)
         }
-        2 => rng.bytes(6912),
+        2 => {
+            // the one valid size, or sizes other tools write (two screens one after another, a screen with an extra
+            // attribute block, bitmap only, ...)
+            let n = if rng.chance(1, 3) { *rng.pick(&[13824usize, 13824, 13823, 13825, 7680, 6144, 6913, 6911, 768, 20736, 27648]) } else { 6912 };
+            rng.bytes(n)
+        }
         3 => {
             let blocks = super::c12::gen_tape(rng, 3, 302);
             tape::make_tap(&blocks)
